@@ -117,6 +117,21 @@ func libraryVectors(r *Rand) ([]vector, error) {
 		return nil, fmt.Errorf("validator registration: harness %x library %x", got, want)
 	}
 	vs = append(vs, vector{"registration", App("htr_registration", "sha256_2", App("Registration", BigN(fee), N(gl), N(ts), BigN(pk))), want})
+	// the library's message of a registration has the WHOLE SECONDS of its time.Time as a uint64:
+	// the sub-second part is dropped (not rounded), the location is irrelevant, instants before
+	// 1970 wrap (what Model/C06_Signer.v wire_registration and specRoots take for granted)
+	for i, ns := range boundaryNanos {
+		for _, sec := range []int64{int64(ts), boundarySeconds[(i+int(ts))%len(boundarySeconds)], negativeSeconds[(i+int(ts))%len(negativeSeconds)]} {
+			g := Reg{Timestamp: sec, Nanos: ns, Zone: zones[(i+int(gl%7))%len(zones)] * (i % 2)}
+			reg.Timestamp = g.time()
+			if want, err = reg.HashTreeRoot(); err != nil {
+				return nil, err
+			}
+			if got := specRegistration(fee, gl, uint64(sec), pk); got != want {
+				return nil, fmt.Errorf("validator registration at %d s + %d ns (zone %d): harness %x library %x", sec, ns, g.Zone, got, want)
+			}
+		}
+	}
 	return vs, nil
 }
 
